@@ -18,6 +18,7 @@ import (
 type v5Cmd struct {
 	Op      string     `json:"op"` // add | remove | flush | search | node | multi | flushinv
 	ID      uint32     `json:"id,omitempty"`
+	IDs     []uint32   `json:"ids,omitempty"`
 	Vec     []uint32   `json:"vec,omitempty"`
 	Qs      [][]uint32 `json:"qs,omitempty"`
 	K       int        `json:"k,omitempty"`
@@ -100,7 +101,7 @@ func genVec5(r *core.Rand, tier string) *v5Case {
 		cmd.Ef = []int{0, c.HM, 4*n + 1}[r.Intn(3)]
 	}
 	for i := 0; i < nops; i++ {
-		switch r.Pick(10, 4, 1, 5, 2, 2, 1) {
+		switch r.Pick(10, 4, 1, 5, 2, 2, 1, 2) {
 		case 0:
 			v := genVec(r, c.Dim, pool, lattice)
 			if r.Chance(0.02) {
@@ -174,6 +175,23 @@ func genVec5(r *core.Rand, tier string) *v5Case {
 			searchArgs(&cmd)
 			cmd.ThrMode = 0
 			c.Cmds = append(c.Cmds, cmd)
+		case 7:
+			// several node ids in one search: repeats and non-insertion order included
+			cmd := v5Cmd{Op: "mnode", Agg: []string{"sum", "max", "mean"}[r.Intn(3)]}
+			for j := r.Range(2, 4); j > 0 && len(ids) > 0; j-- {
+				cmd.IDs = append(cmd.IDs, ids[r.Intn(len(ids))])
+			}
+			if len(cmd.IDs) > 1 && r.Chance(0.4) {
+				cmd.IDs[len(cmd.IDs)-1] = cmd.IDs[0]
+			}
+			if r.Chance(0.4) {
+				cmd.Qs = append(cmd.Qs, core.Bits(genVec(r, c.Dim, pool, lattice)))
+			}
+			searchArgs(&cmd)
+			cmd.ThrMode = 0
+			if len(cmd.IDs) > 0 {
+				c.Cmds = append(c.Cmds, cmd)
+			}
 		case 6:
 			cmd := v5Cmd{Op: "flushinv", Qs: [][]uint32{core.Bits(genVec(r, c.Dim, pool, lattice))}}
 			searchArgs(&cmd)
@@ -306,6 +324,35 @@ func execVec5(c *v5Case) []string {
 					}
 				}
 				lines = append(lines, fmt.Sprintf("op node %s %d %s %s %d ; %s ; %s => ok", kind, cmd.K, core.Hex32(0), core.IDs(cmd.Filter), cmd.ID, outTok(nres, nerr), vtok))
+			}
+		case "mnode":
+			var extra [][]float32
+			for _, q := range cmd.Qs {
+				extra = append(extra, core.FromBits(q))
+			}
+			for _, kind := range v5Kinds {
+				nres, nerr := search(kind, cmd, 0, extra, cmd.IDs, cmd.Agg)
+				vtok := "ok"
+				all := true
+				qs := append([][]float32(nil), extra...) // Execute puts direct queries first, then the nodes' vectors in request order
+				for _, id := range cmd.IDs {
+					rv, ok := raw[id]
+					if !ok {
+						all = false
+						break
+					}
+					stored, perr := dist.Preprocess(zeroSafe(rv))
+					if perr != nil {
+						all = false
+						break
+					}
+					qs = append(qs, stored)
+				}
+				if all {
+					vres, verr := search(kind, cmd, 0, qs, nil, cmd.Agg)
+					vtok = outTok(vres, verr)
+				}
+				lines = append(lines, fmt.Sprintf("op node %s %d %s %s %s ; %s ; %s => ok", kind, cmd.K, core.Hex32(0), core.IDs(cmd.Filter), core.IDs(cmd.IDs), outTok(nres, nerr), vtok))
 			}
 		case "multi":
 			qs := make([][]float32, len(cmd.Qs))
